@@ -29,6 +29,9 @@ def parseOp (s : String) : Option Op :=
   | 'd' :: r => (parseRelIds r).map (fun (a, b) => Op.delete a b)
   | 'q' :: r => (String.ofList r).toNat?.map Op.query
   | 'c' :: r => (String.ofList r).toNat?.map Op.readc
+  | 'g' :: r => match parseRelIds r with | some (v, [rel]) => some (Op.regRule v rel) | _ => none
+  | 'x' :: r => (String.ofList r).toNat?.map Op.dropRule
+  | 'w' :: r => (String.ofList r).toNat?.map Op.queryV
   | _ => none
 
 def parseProg (s : String) : Option (List Op) := if s == "-" then some [] else optMapM parseOp (s.splitOn ",")
@@ -39,15 +42,24 @@ def parseSched (items : List String) : Option (List Nat) :=
 structure Req where
   incOn : Bool
   nr : Nat
+  nv : Nat := 0
   progs : List (List Op)
   sched : List Nat
 
+def parseReq3 (i r t : String) (nv : Nat) (items : List String) : Option Req :=
+  match (kv "inc" i).bind String.toNat?, (kv "R" r).bind String.toNat?, (kv "T" t).bind parseProgs, parseSched items with
+  | some i, some r, some t, some sc => some { incOn := i != 0, nr := r, nv := nv, progs := t, sched := sc }
+  | _, _, _, _ => none
+
+/-- `inc= R= [V=] T= | schedule` -/
 def parseReq (args : List String) : Option Req :=
   match args with
-  | i :: r :: t :: items =>
-    match (kv "inc" i).bind String.toNat?, (kv "R" r).bind String.toNat?, (kv "T" t).bind parseProgs, parseSched items with
-    | some i, some r, some t, some sc => some { incOn := i != 0, nr := r, progs := t, sched := sc }
-    | _, _, _, _ => none
+  | i :: r :: v :: rest =>
+    if v.startsWith "V=" then
+      match (kv "V" v).bind String.toNat?, rest with
+      | some nv, t :: items => parseReq3 i r t nv items
+      | _, _ => none
+    else parseReq3 i r v 0 rest
   | _ => none
 
 def Req.init (r : Req) : State := EStep.init r.progs r.incOn
@@ -61,10 +73,21 @@ def showOut : Out → String
   | .ins a b => s!"i{a}.{b}"
   | .del n => s!"d{n}"
   | .rows l => "r" ++ ids (sortNat l)
+  | .created => "c"
+  | .added n => s!"a{n}"
+  | .dropped => "x"
   | .err => "err"
 
 def idsE (l : List Nat) : String := if l.isEmpty then "_" else ids l
-def obsOf (nr : Nat) (st : State) : String := "|".intercalate ((List.range nr).map (fun r => idsE (st.snap r)))
+def showRules (rules : Rules) : String :=
+  let cl := rules.flatMap (fun e => e.2.map (fun r => (e.1, r)))
+  let cl := sortBy (fun (a b : Nat × Nat) => decide (a.1 < b.1 || (a.1 == b.1 && a.2 ≤ b.2))) cl
+  if cl.isEmpty then "_" else ",".intercalate (cl.map (fun (v, r) => s!"v{v}:r{r}"))
+def obsOf (nr : Nat) (st : State) : String :=
+  "|".intercalate ((List.range nr).map (fun r => idsE (st.snap r))) ++ "~" ++ showRules st.snapRules
+
+def vfinOf (nv : Nat) (st : State) : String :=
+  if nv = 0 then "-" else "|".intercalate ((List.range nv).map (fun v => showOut (.rows (evalView st.snap st.snapRules v))))
 
 def doneOf (st : State) (t : Nat) : List (Op × Out × Nat) := (st.threads t).done
 
@@ -97,23 +120,24 @@ def modelOut (r : Req) : String :=
   | some k1 =>
     let states := states.take k1
     let res := "/".intercalate ((List.range r.progs.length).map (fun t => showRes (resStepsAux t states 0)))
-    s!"res={res} obs={" ".intercalate (states.map (obsOf r.nr))} fin=dead@{k1 - 1}"
+    s!"res={res} obs={" ".intercalate (states.map (obsOf r.nr))} fin=dead@{k1 - 1} vfin=-"
   | none =>
     let fin := states.getLastD r.init
     let res := "/".intercalate ((List.range r.progs.length).map (fun t => showRes (resStepsAux t states 0)))
-    s!"res={res} obs={" ".intercalate (states.map (obsOf r.nr))} fin={finOf r.nr fin}"
+    s!"res={res} obs={" ".intercalate (states.map (obsOf r.nr))} fin={finOf r.nr fin} vfin={vfinOf r.nv fin}"
 
 /-! ### parsing the implementation's output (for the Spec oracles) -/
 
 def parseIds (s : String) : Option (List Nat) := if s.isEmpty || s == "_" then some [] else optMapM String.toNat? (s.splitOn ".")
 
 inductive IOut where
-  | ins (a b : Nat) | del (n : Nat) | rows (l : List Nat) | err
+  | ins (a b : Nat) | del (n : Nat) | rows (l : List Nat) | created | added (n : Nat) | dropped | err
   deriving Repr, DecidableEq, Inhabited
 
 def parseIOut (s : String) : Option IOut :=
-  if s == "err" then some .err else
+  if s == "err" then some .err else if s == "c" then some .created else if s == "x" then some .dropped else
   match s.toList with
+  | 'a' :: r => (String.ofList r).toNat?.map IOut.added
   | 'i' :: r => match (String.ofList r).splitOn "." with
     | [a, b] => match a.toNat?, b.toNat? with | some a, some b => some (.ins a b) | _, _ => none
     | _ => none
@@ -129,18 +153,36 @@ def parseResList (s : String) : Option (List (Nat × IOut)) :=
 structure Impl where
   res : List (List (Nat × IOut))      -- per thread: (step index, output) in program order
   obs : List (List (List Nat))        -- per boundary, per relation
+  obsRules : List (List (Nat × Nat)) := []   -- per boundary: the snapshot's (view, body relation) clauses, sorted
+  vfin : List IOut := []
   fin : List IOut
   dead : Option Nat := none           -- `fin=dead@k`
 
+def parseClause (s : String) : Option (Nat × Nat) :=
+  match s.splitOn ":" with
+  | [v, r] => match (dropStr 1 v).toNat?, (dropStr 1 r).toNat? with | some v, some r => some (v, r) | _, _ => none
+  | _ => none
+
+def parseRulesObs (s : String) : Option (List (Nat × Nat)) :=
+  if s == "_" then some [] else optMapM parseClause (s.splitOn ",")
+
 def parseImpl (impl : String) : Option Impl :=
-  match impl.splitOn " obs=" with
-  | [a, rest] => match rest.splitOn " fin=" with
-    | [o, f] =>
-      match optMapM parseResList ((dropStr 4 a).splitOn "/"),
-            optMapM (fun img => optMapM parseIds (img.splitOn "|")) (o.splitOn " "),
-            (if f == "-" || f.startsWith "dead@" then some [] else optMapM parseIOut (f.splitOn "|")) with
-      | some res, some obs, some fin => some { res := res, obs := obs, fin := fin, dead := if f.startsWith "dead@" then (dropStr 5 f).toNat? else none }
-      | _, _, _ => none
+  match impl.splitOn " vfin=" with
+  | [body, vf] =>
+    match body.splitOn " obs=" with
+    | [a, rest] => match rest.splitOn " fin=" with
+      | [o, f] =>
+        let imgs := (o.splitOn " ").map (fun img => match img.splitOn "~" with | [fa, ru] => (fa, ru) | _ => (img, "_"))
+        match optMapM parseResList ((dropStr 4 a).splitOn "/"),
+              optMapM (fun (img : String × String) => optMapM parseIds (img.1.splitOn "|")) imgs,
+              optMapM (fun (img : String × String) => parseRulesObs img.2) imgs,
+              (if f == "-" || f.startsWith "dead@" then some [] else optMapM parseIOut (f.splitOn "|")),
+              (if vf == "-" then some [] else optMapM parseIOut (vf.splitOn "|")) with
+        | some res, some obs, some orl, some fin, some vfin =>
+          some { res := res, obs := obs, obsRules := orl, fin := fin, vfin := vfin,
+                 dead := if f.startsWith "dead@" then (dropStr 5 f).toNat? else none }
+        | _, _, _, _, _ => none
+      | _ => none
     | _ => none
   | _ => none
 
